@@ -198,7 +198,10 @@ def m_len(I, st, args, dest_ty, *r):
         w = regex_width(v.tag[2])
         if w is not None:
             hi = min(w[1], ISIZE_MAX)
-            return IntV.top("usize", d, w[0], hi, exact=True)
+            if w[0] == hi:
+                return IntV.const("usize", hi)
+            # the length of a token is an input of the analysis: one atom per token, so that len-k keeps its form
+            return I.new_atom("usize", "len(" + v.tag[1] + ")", w[0], hi)
         return IntV.top("usize", d, 0, ISIZE_MAX, exact=False)
     if v.kind == "top" and v.tag and v.tag[0] == "strlen":
         lo, hi = v.tag[1]
@@ -329,6 +332,72 @@ def m_index_opaque(I, st, args, dest_ty, fn, b, line, fref):
     return TopV(dest_ty, d)
 
 
+def regex_ascii_only(term):
+    """True if every string of the terminal's language is pure ASCII (every byte index is a char boundary)"""
+    m = re.match(r'^r#"(.*)"#$', term)
+    if not m:
+        return term.startswith('"') and all(ord(c) < 128 for c in term)
+    rx = m.group(1)
+    rx2 = rx.replace("[[:ascii:]]", "").replace("[[:print:]]", "").replace("[[:alnum:]]", "").replace("[[:alpha:]]", "").replace("[[:digit:]]", "")
+    if re.search(r"(?<!\\)\.|\[\^|\\[WSDPp]|\\x\{|\\u", rx2):
+        return False  # any-char, negated class, negated perl class, unicode class
+    return all(ord(c) < 128 for c in rx2)
+
+
+def m_index_str(I, st, args, dest_ty, fn, b, line, fref):
+    """str[Range*]: proved when the receiver is a token of an ASCII-only terminal and the bounds are within its
+    minimum length / of the form len-k; otherwise a potential abort site (bounds or char boundary)"""
+    d = _deps(I, st, args)
+    recv = _deref(I, st, args[0])
+    rng = args[1] if len(args) > 1 else None
+    status = "possible"
+    if recv.kind == "top" and recv.tag and recv.tag[0] == "tok" and rng is not None and regex_ascii_only(recv.tag[2]):
+        w = regex_width(recv.tag[2])
+        lenname = "len(" + recv.tag[1] + ")"
+        fields = list(rng.fields) if rng.kind == "agg" else []
+        kind = rng.name if rng.kind == "agg" else ""
+        lo = hi = None
+        if kind.endswith("RangeFrom") and len(fields) == 1:
+            lo = fields[0]
+        elif kind.endswith("RangeTo") and len(fields) == 1:
+            hi = fields[0]
+        elif kind.endswith("Range") and len(fields) == 2:
+            lo, hi = fields
+
+        def below_len(x):
+            """x <= len(token) for every token"""
+            if x.kind != "int":
+                return False
+            if w is not None and x.hi <= w[0]:
+                return True
+            if x.aff is not None:
+                t = dict(x.aff.terms)
+                if set(t) == {lenname} and t[lenname] == 1 and x.aff.c <= 0:
+                    return True
+            return False
+
+        def le(x, y):
+            """x <= y for every token"""
+            if x.kind != "int" or y.kind != "int":
+                return False
+            if x.hi <= y.lo:
+                return True
+            return False
+        if w is not None:
+            ok_ = True
+            if lo is not None and not below_len(lo):
+                ok_ = False
+            if hi is not None and not below_len(hi):
+                ok_ = False
+            if lo is not None and hi is not None and not le(lo, hi):
+                ok_ = False
+            if ok_:
+                status = "proved"
+    I.event("assert", fn, b, line, akind="index:" + fref.get("def", "?"), status=status, witness=None, vals=list(args), exp=False)
+    # a slice of a token is a string derived from it (no terminal of its own)
+    return TopV(dest_ty, d)
+
+
 def m_range_next(inclusive):
     def f(I, st, args, dest_ty, *r):
         # args[0] = &mut Range{start,end}; yields a value within [start, end) / [start, end]
@@ -455,6 +524,7 @@ MODELS = [(re.compile(p), f) for p, f in [
     (r"as std::iter::Iterator>::next$", m_iter_next_top),
     (r"IntoIterator>::into_iter$", m_identity),
     (r"Iterator::enumerate$|Iterator::copied$", m_identity),
+    (r"ops::Index<I> for str>::index$|<std::string::String as std::ops::Index<I>>::index$", m_index_str),
     (r"ops::Index<I>>::index$|ops::Index<I> for str>::index$|ops::IndexMut", m_index_opaque),
     (r"<impl str>::len$|Vec::<T, A>::len$|String::len$|<impl \[T\]>::len$", m_len),
     (r"Vec::<T, A>::pop$", m_vec_pop),
